@@ -260,8 +260,12 @@ Proof.
   destruct (notes s) as [|n2 [|n1 rest]] eqn:E; try discriminate.
   destruct (negb _); [discriminate|].
   cbn [chain] in C. destruct C as [C1 [C2 C3]].
-  destruct (fst br); injection H as <-; cbn; (split; [assumption|]); (split; [|assumption]);
-    rewrite ?qadd_eq, ?qsub_eq; rewrite C2; reflexivity.
+  destruct (fst br); injection H as <-; cbn [chain notes cur set_notes n_end n_start];
+    (split; [assumption|]); (split; [|assumption]);
+    match goal with
+    | |- qadd _ ?a == _ => generalize a
+    | |- qsub _ ?a == _ => generalize a
+    end; intro adj; rewrite ?qadd_eq, ?qsub_eq, C2; reflexivity.
 Qed.
 
 Lemma step_item_chain : forall s i s', step_item s i = Ok s' ->
